@@ -54,13 +54,8 @@ const (
 	CAll = CFields | CDict | CDictCount | CPostings | CStored | CDV | CStats
 )
 
-// Observe drives the public API. Panics are converted to errors.
+// Observe drives the public API. Panics propagate (callers guard them).
 func Observe(seg segment.Segment) (o *Obs, err error) {
-	defer func() {
-		if r := recover(); r != nil {
-			err = fmt.Errorf("panic: %v", r)
-		}
-	}()
 	o = &Obs{Count: seg.Count(), Dicts: map[string][]Term{}, Stats: map[string]model.Stats{}}
 	o.Fields = append([]string(nil), seg.Fields()...)
 	for _, f := range o.Fields {
